@@ -265,10 +265,6 @@ def locateKey (c : Cache) (pd : PD) (key : Bytes) : Cache × Except Err Region :
   let (c', r) := findRegionByKey c pd key false
   (c', r.map (·.r))
 
-def locateEndKey (c : Cache) (pd : PD) (key : Bytes) : Cache × Except Err Region :=
-  let (c', r) := findRegionByKey c pd key true
-  (c', r.map (·.r))
-
 /-- `LocateRegionByID` -/
 def locateRegionByID (c : Cache) (pd : PD) (id : Nat) : Cache × Except Err Region :=
   let cached := match c.byID id with | some e => if e.valid then some e else none | none => none
@@ -339,6 +335,47 @@ def batchLoadRegionsWithKeyRanges (c : Cache) (pd : PD) (ranges : List KeyRange)
     match batchScanRegions pd ranges limit with
     | .error x => (c, .error x)
     | .ok rs => (rs.foldl (fun c r => (insertRegionToCache c r).1) c, .ok rs)
+
+/-- `BatchLoadRegionsWithKeyRange` = `scanRegions` (PD ScanRegions, non-empty, gap check; no-op backoffer: a retry
+    round is an error) followed by inserting every region (old regions stay valid) -/
+def batchLoadRegionsWithKeyRange (c : Cache) (pd : PD) (startKey endKey : Bytes) (limit : Nat) :
+    Cache × Except Err (List Entry) :=
+  let infos := pd.scanRegions startKey endKey limit
+  if infos.isEmpty then (c, .error .empty)
+  else if regionsHaveGapInRanges [⟨startKey, endKey⟩] (infos.map (·.r)) limit then (c, .error .gap)
+  else
+    let rs := infos.map (·.toEntry)
+    (rs.foldl (fun c r => (insertRegionToCache c r).1) c, .ok rs)
+
+/-- the `for` loop of `findLastRegion`: walk PD's regions from startKey until one with an unbounded end -/
+def findLastLoop : Nat → Cache → PD → Bytes → Cache × Except Err Entry
+  | 0, c, _, _ => (c, .error .fuel)
+  | fuel + 1, c, pd, startKey =>
+    match batchLoadRegionsWithKeyRange c pd startKey [] limitPerBatch with
+    | (c1, .error x) => (c1, .error x)
+    | (c1, .ok rs) =>
+      match rs.getLast? with
+      | none => (c1, .error .empty)
+      | some last => if last.r.endKey.isEmpty then (c1, .ok last) else findLastLoop fuel c1 pd last.r.endKey
+
+/-- `findLastRegion` (/repo f67ac70): the item with the greatest start key (`b.Max()`) if its end is unbounded and it
+    `isValid()` (no reload flag, TTL ok); otherwise PD's regions from its start key on -/
+def findLastRegion (fuel : Nat) (c : Cache) (pd : PD) : Cache × Except Err Entry :=
+  match c.sorted.getLast? with
+  | some e =>
+    if e.r.endKey.isEmpty && !e.reload && e.valid then (c, .ok e)
+    else findLastLoop fuel c pd e.r.start
+  | none => findLastLoop fuel c pd []
+
+/-- `LocateEndKey`; the first branch is the one `findRegionByKey` takes for `isEndKey && len(key) == 0`
+    (LocateEndKey is the only caller with isEndKey) -/
+def locateEndKey (fuel : Nat) (c : Cache) (pd : PD) (key : Bytes) : Cache × Except Err Region :=
+  if key.isEmpty then
+    let (c', r) := findLastRegion fuel c pd
+    (c', r.map (·.r))
+  else
+    let (c', r) := findRegionByKey c pd key true
+    (c', r.map (·.r))
 
 /-- `LocateKeyRange` step 1: follow cached regions from startKey; result: (locations so far reversed, done?, next start) -/
 def cachedChain : Nat → Cache → Bytes → Bytes → List Region → List Region × Bool × Bytes
